@@ -105,6 +105,8 @@ MUTANTS = {
         ("cli/infer.py", "        set_backend(tensorlib, new_optimizer(**optconf))\n\n    with click.open_file(workspace", "        set_backend(tensorlib, new_optimizer())\n\n    with click.open_file(workspace")]),
     "C19-rename-file-branch-unrenamed": dict(prop="C19", expect="violation", edits=[
         ("cli/spec.py", "            json.dump(renamed_ws, out_file, indent=4, sort_keys=True)", "            json.dump(ws, out_file, indent=4, sort_keys=True)")]),
+    "C19-inspect-text-wrong-nbins": dict(prop="C19", expect="violation", edits=[
+        ("cli/spec.py", "        click.echo(fmtStr.format(channel, str(nbins)))", "        click.echo(fmtStr.format(channel, str(nbins + 1)))")]),
     # ---------------- C20 ----------------------------------------------------
     "C20-sample-length-check-removed": dict(prop="C20", expect="violation", edits=[
         ("pdf.py", "        if not len(nom) == self.config.channel_nbins[channel]:", "        if False:")]),
